@@ -291,6 +291,12 @@ def v_sched(tier, seed):
         ma, ia, mb = Task({'A': ('ref', True)}, {}, None, False), Task({'A': ('ref', False)}, {}, None, True), Task({'B': ('ref', True)}, {}, None, False)
         for chain in ([ma, ia, mb], [ia, ia, ma], [ma, mb, ia], [mb, ma, ma], [ia, mb, ia]):
             ws.append(sched_witness(list(chain)))
+        # ParSystem tasks with entry views (sibling Stager impl), before and after a conflicting System
+        pe_mut = Task({'B': ('ref', False)}, {'A': ('ref', True)}, None, True)
+        pe_ref = Task({}, {'A': ('opt', False)}, None, True)
+        sa_ref, sa_mut = Task({'A': ('ref', False)}, {}, None, False), Task({'A': ('ref', True)}, {}, None, False)
+        for pair in ([pe_mut, sa_ref], [sa_ref, pe_mut], [pe_mut, sa_mut], [pe_ref, sa_ref], [pe_ref, sa_mut], [sa_mut, pe_ref], [pe_mut, pe_mut], [pe_ref, pe_ref]):
+            ws.append(sched_witness(list(pair)))
         return ws, True
     # thorough: full 2-task product over a richer alphabet + systematic 3-task chains
     for ka in K5:
@@ -303,7 +309,14 @@ def v_sched(tier, seed):
     ws = [sched_witness([a, b]) for a in alpha for b in alpha]
     rnd = random.Random(seed or 1)
     small = [Task({'A': k} if k else {}, {}, r, p) for k in K5 for r in (None, True) for p in (False, True)]
-    small += [Task({'B': ('ref', True)}, {'A': e}, None, False) for e in (('ref', False), ('ref', True))]
+    small += [Task({'B': ('ref', True)}, {'A': e}, None, par) for e in (('ref', False), ('ref', True)) for par in (False, True)]
+    for ea in (('ref', False), ('ref', True), ('opt', True)):
+        for t in alpha[:]:
+            if not t.par and not t.entry and t.res is None and len(t.views) <= 1 and 'B' not in t.views:
+                pt = Task(dict(t.views), {'A': ea}, None, True)
+                if pt.valid():
+                    ws.append(sched_witness([pt, t]))
+                    ws.append(sched_witness([t, pt]))
     triples = [(a, b, c) for a in small for b in small for c in small]
     rnd.shuffle(triples)
     for tr in triples[:400]:
